@@ -15,16 +15,24 @@ claimed = {
              text='13 families of well-typed programs are enumerated completely; every program must get no error diagnostic and the types recorded for its expressions must equal the reference type checker\'s; every single-fault mutant (about 95 mutators applied at every position) must get at least one error diagnostic. Both directions on every element, no sampling.', ref='5/C03'),
  'C04': dict(technique='bounded exhaustive differential enumeration (interpreter vs VM)',
              text='Every accepted program of the enumerated families is run on both backends and the observation records are compared; complete enumeration within the bounds.', ref='5/C04'),
+ 'C08': dict(technique='bounded exhaustive enumeration of interrupt/diagnostic/syntax-error positions over program families, single-fault programs and all single-character edits of base texts',
+             text='Every interrupt span of programs ending in a throw or fatal error (both backends) is consistent with the text and within the culprit known from the IR printer; first diagnostics of single-fault programs lie within the culprit in several layouts; every syntax error and diagnostic of every single-character edit of the base texts has a consistent span and renders without panic.', ref='5/C08'),
  'C09': dict(technique='bounded exhaustive enumeration of (program, limit triple, iteration count) over a limit lattice with a differential oracle',
              text='Every program of a 4-parameter family is run under every limit triple of a lattice on the VM and every call limit on the interpreter; never a host panic, interrupt kind corresponds to the small limit, monotone in every limit, never stopped when the reference call depth is within the limit, residue zero. Complete within the bounds.', ref='5/C09'),
  'C10': dict(technique='stateless DFS over all thread schedules and cancellation points of the real VM within a delay bound (controlled scheduler); exhaustive cancellation-poll enumeration for the interpreter',
              text='The host cancel is a one-step thread, so every cancellation point is one scheduling deviation; all schedules within the delay bound are executed on the real VM code and judged (Wait returns termination or own outcome, nothing left blocked, bounded overshoot). Deadlock and livelock are terminal states of the scheduler, not timeouts.', ref='5/C10'),
  'C11': dict(technique='bounded exhaustive enumeration of control-flow nestings vs. reference evaluator on both backends',
              text='All nestings up to depth 3/4 of 12 control constructs around 7 kinds of exit, each with and without a trailing uncaught throw, run on VM and interpreter and compared with the reference evaluator (output, outcome, caught message/position, VM residue).', ref='5/C11'),
+ 'C12': dict(technique='bounded exhaustive enumeration of (value, type, route) triples against a reference cast/conformance model',
+             text='All values of depth <= 2 x all types of depth <= 2 through every route (DeepCast of both value libraries with both allowCasts, `as`, annotated let, parse_json, host arguments and return values), compared with an independent refcast: admitted iff conforming after permitted conversions, result deeply conforms, exact values unchanged, rejection catchable with the offending path.', ref='5/C12'),
+ 'C13': dict(technique='bounded exhaustive enumeration of value pairs/triples and mutation sequences against structural reference equality',
+             text='Per static type all values over a leaf alphabet: reflexivity, symmetry, transitivity and agreement with structural equality on all pairs/triples; clone independence under all mutation sequences of length <= 2; JSON round trip under the type; identical display in both runtimes; the same laws through programs on both backends.', ref='5/C13'),
  'C14': dict(technique='exhaustive exploration of Go-map iteration orders (choice points injected by the overlay rewriter) and of single-threaded schedules, within a deviation bound',
              text='On a build where every map range is a choice point, all executions of the whole pipeline with <=1/<=2 deviating ranges (rotations of the real order) and all schedules of main core vs polling Wait within delay bound 2/3 must give identical diagnostics, output and outcome; plus repeated rounds in one process.', ref='5/C14'),
  'C15': dict(technique='bounded exhaustive enumeration of module graphs (visibility configurations, overlapping names, all subsets of candidate import edges) against a reference linker',
              text='Every visibility configuration x import subset, every pair of library shapes with overlapping private names, and every subset of 12 import edges over 4 modules (cycles, self imports, missing modules) go through the real analyzer and both backends; verdict and output must equal the reference linker.', ref='5/C15'),
+ 'C18': dict(technique='exhaustive enumeration of the analyzer\'s member table x receiver values x boundary argument tuples on both runtimes',
+             text='The member table is read from the analyzer at run time; every member x receiver in {empty, one, many} x boundary arguments is called on both runtimes directly and through one-line programs: exists, returns the advertised kind, matches reference semantics, negative indices from the end, out-of-range answers with an interrupt, never a host panic.', ref='5/C18'),
  'C19': dict(technique='bounded exhaustive enumeration of programs through print -> parse -> analyse -> run round trips and through the optimizer (differential on the real VM/interpreter)',
              text='Every program of the shared families plus printer-centric programs: both printers must yield text that parses, is accepted, behaves identically and is a fixed point; the optimizer output must behave identically on both backends.', ref='5/C19'),
  'C16': dict(technique='explicit enumeration of all host-call histories up to a depth x all schedules within a delay bound, against the reference evaluator',
